@@ -1,5 +1,6 @@
 import PolyplyVerif.Driver.Common
 import PolyplyVerif.Model.Output
+import PolyplyVerif.Generated.OutputTables
 open Lean PolyplyVerif PolyplyVerif.Output
 
 /-!
@@ -8,6 +9,9 @@ Driver of C20.  Paths travel as `["f", name]`, `["b", name, k]`, `["t", n]`; a f
 * `stages`  {prog, flags, out, chunks}                → the stage list of the program (kind, label)
 * `runs`    {fs, runs:[{prog, flags, out, chunks, crash}]} → state after running the programs one after the
   other in the same process (crash = index of the raising stage, null = no crash)
+* `unnamed` {prog, flags} → the non-benign calls of the program's CURRENT source (Generated/OutputTables) that
+  the stage list does not name, with the position of the flush among them; `order`, `quiet` = the two
+  predicates of `C20_source_*`
 * `spec_unchanged` {before, after}, `spec_success` {before, after, out, content} → the property's predicates
 -/
 namespace PolyplyVerif.Driver.C20
@@ -74,6 +78,25 @@ def handle (j : Json) : Except String Json := do
       | .ok k => pure (crashRun stages (← k.getNat?) st)
       | .error _ => pure (run stages st)) ⟨fs, [], 0⟩
     pure (stateToJson st)
+  | "unnamed" =>
+    let prog ← (← j.getObjVal? "prog").getStr?
+    let stages ← stagesOfJson (j.setObjVal! "out" (Json.str "o") |>.setObjVal! "chunks" (Json.arr #[Json.str "c"]))
+    let (calls, last) ← match prog with
+      | "gen_params" => pure (OutputTables.genParamsCalls, "DeferredFileWriter.write")
+      | "gen_coords" => pure (OutputTables.genCoordsCalls, "DeferredFileWriter.write")
+      | "gen_seq" => pure (OutputTables.genSeqCalls, "json.dump")
+      | _ => throw s!"unknown program {prog}"
+    let labels := stageLabels stages
+    -- for every unnamed call: its name and the label of the first NAMED stage called after it (the model's
+    -- crash index for a fault there), null when none follows
+    let rows := calls.zipIdx.filterMap fun (r, i) =>
+      if CallRow.benign r || labels.any (fun l => matchesLabel l r) then none
+      else
+        let next := (calls.drop (i + 1)).findSome? fun r' => labels.find? (fun l => matchesLabel l r')
+        some (Json.arr #[Json.str (CallRow.name r), toJson r.1, match next with | some l => Json.str l | none => Json.null])
+    pure (okJson [("unnamed", Json.arr rows.toArray), ("order", toJson (orderConsistent labels calls)),
+                  ("quiet", toJson (quietAfter calls last)),
+                  ("found", toJson (labels.filter fun l => (findCall calls l).isSome))])
   | "spec_unchanged" =>
     let a ← fsOfJson (← j.getObjVal? "before")
     let b ← fsOfJson (← j.getObjVal? "after")
